@@ -231,7 +231,7 @@ func (m *model) apply(o op, msgs [][]byte) {
 	mid := mids[o.M]
 	switch o.K {
 	case opAdd:
-		m.out[mid] = &stored{bytes: msgs[0], rcpts: rcptNorm[o.V.Rcpt], p2p: o.V.P2P}
+		m.out[mid] = &stored{bytes: msgs[0], rcpts: rcptNorm[o.V.Rcpt], p2p: o.V.P2P, unread: mboxkit.HasHeader(msgs[0], "x-unread")} // flagged iff it was handed in flagged
 	case opPrepare, opRestart:
 		m.deferred = map[string]bool{} // a deferral lasts for one session
 	case opSent:
@@ -333,6 +333,12 @@ func (r *runner) step(o op) {
 	switch o.K {
 	case opAdd:
 		msg := outSpec(o).Build()
+		if o.T == "2" || o.T == "again" {
+			// a message that comes with the mailbox's own unread flag (a received message queued again, a draft that was
+			// flagged): the flag is the mailbox's private business wherever the file is, it does not go out
+			msg.Header.Set("X-Unread", "true")
+			r.o.Count("outbound_messages_added_with_an_unread_flag", 1)
+		}
 		msgBytes = [][]byte{mboxkit.MustBytes(msg)}
 		if err := r.h.AddOut(msg); err != nil {
 			r.violate("return:AddOut", "AddOut(%s) = %v, model: nil", mid, err)
